@@ -88,6 +88,10 @@ def join_type(a, b, node=None):
         return b
     if a == TUNIT and b == TUNIT:
         return TUNIT
+    if a == TUNIT:
+        return TOpt(b)
+    if b == TUNIT:
+        return TOpt(a)
     raise Unsupported(f'cannot join types {a} and {b}', node)
 
 
@@ -95,7 +99,7 @@ def coerce_term(term, frm, to, node=None):
     if frm == to:
         return term
     if to[0] == 'opt':
-        if frm == TNONE:
+        if frm == TNONE or frm == TUNIT:
             return 'None'
         if frm == to[1]:
             return f'(Some {paren(term)})'
@@ -144,6 +148,7 @@ class FnOut:
         self.mutates_self = False
         self.param_names = []   # python parameter names (without self/processor)
         self.defaults = {}
+        self.ro = False
 
 
 FILE_RANK = {'enums': 0, 'bits_ops': 1, 'shift': 2, 'regviews': 3, 'records': 4, 'hubm': 5, 'opsyn': 6, 'core': 7,
@@ -213,6 +218,8 @@ class Translator:
         self.sys_names = []
         self.sysl_names = []
         self.opcode_classes = {}   # abstract class name -> (code, [field names])
+        self.opcode_attrmap = {}
+        self.opcode_defaults = {}
         self.concrete_classes = {}  # concrete class name -> (code, abstract name)
         self._collect_enums()
         self._collect_records()
@@ -304,11 +311,24 @@ class Translator:
                     concrete.append(c)
         for i, c in enumerate(sorted(abstract, key=lambda c: c.name)):
             init = c.methods.get('__init__')
+            attrmap = {'instruction': 'instruction'}
+            defaults = {}
             if init is None:
                 fields = ['instruction']
             else:
                 fields = [a.arg for a in init.node.args.args[1:]]
+                for a, dflt in zip(reversed(init.node.args.args), reversed(init.node.args.defaults)):
+                    defaults[a.arg] = dflt
+                for st in init.node.body:
+                    if isinstance(st, ast.Assign) and len(st.targets) == 1 and isinstance(st.targets[0], ast.Attribute) \
+                            and isinstance(st.targets[0].value, ast.Name) and st.targets[0].value.id == 'self':
+                        if isinstance(st.value, ast.Name) and st.value.id in fields:
+                            attrmap[st.targets[0].attr] = st.value.id
+                        else:
+                            attrmap[st.targets[0].attr] = None   # computed attribute: unsupported
             self.opcode_classes[c.name] = (i + 1, fields)
+            self.opcode_attrmap[c.name] = attrmap
+            self.opcode_defaults[c.name] = defaults
         for i, c in enumerate(sorted(concrete, key=lambda c: c.name)):
             abs_ = None
             for b in c.mro(self.prog)[1:]:
